@@ -36,6 +36,10 @@ def gen_c08_graph(rng, bnodes):
     if subs and rng.random() < 0.5:
         for lex in rng.sample(['say \\"hi\\"@home', 'a^^b', 'x\\"^^<http://e.org/dt>', 'mail@host', 'see xsd:int', '# no comment', 'ends with \\\\'], 3):
             out.append((rng.choice(subs), EX + 'adv', L(lex)))
+    # typed and tagged literals whose text contains '>' , '<' or an escaped quote: the end of the literal token is where its suffix says
+    if subs and rng.random() < 0.5:
+        out.append((rng.choice(subs), EX + 'body', L('a -> b <i>x</i>', XSD + 'token')))
+        out.append((rng.choice(subs), EX + 'said', L('she said \\"hi\\" twice', lang='en')))
     # a datatype of the example namespace (so that the channels that write IRIs relative to @base have a relative datatype to resolve)
     if subs and rng.random() < 0.5:
         out.append((rng.choice(subs), EX + 'area', L('20', EX + 'units/squareMetre')))
